@@ -323,3 +323,17 @@ def no_start_consumes_started_term():
         "B".adj + "A"
 
     return "Z"
+
+
+def integer_multiples():
+    with "I":
+        start = 0
+        2 * "A" - "A".adj * 3 + -2 * ("I1" - "A") / 5
+        if offdiagonal:
+            3 * f("A") + f(2 * "A".adj)
+
+    with "I1":
+        start = 0
+        "A" * -1
+
+    return "I"
